@@ -27,6 +27,10 @@ class ExprError(Exception):
 
 
 def _myround(number_to_round, decimal_places):
+    if isinstance(number_to_round, int) and decimal_places < 0:
+        # round(int, -n) computes 10**n exactly: a number written in the wikitext must not buy
+        # unbounded work. Beyond the size of the number the result is 0 whatever n is.
+        decimal_places = max(int(decimal_places), -number_to_round.bit_length() - 1)
     if int(decimal_places) == 0 and round(number_to_round + 1) - round(number_to_round) != 1:
         return number_to_round + abs(number_to_round) / number_to_round * 0.5  # simulate Python 2 rounding
         # via https://stackoverflow.com/questions/21839140/
